@@ -2564,7 +2564,7 @@ fn stream_struct(out: &mut Out, rng: &mut Rng, n: usize) {
         ];
         let which = if i % 3 == 0 { 9 } else { rng.below(9) as usize };
         let (shape, body): (&str, String) = if which == 9 {
-            ("all", format!("{{ {} }}", roots.iter().enumerate().map(|(k, r)| format!("f{} = {}", k, r.1)).collect::<Vec<_>>().join(", ")))
+            ("all", format!("{{ {} }}", roots.iter().enumerate().filter(|(_, r)| r.0 != "pap").map(|(k, r)| format!("f{} = {}", k, r.1)).collect::<Vec<_>>().join(", ")))
         } else {
             (roots[which].0, roots[which].1.clone())
         };
@@ -2598,6 +2598,9 @@ fn stream_struct(out: &mut Out, rng: &mut Rng, n: usize) {
         if !intact.starts_with("(ok") {
             // the intact text must load (cycles through records do not: not generated here)
             out.count(&format!("struct:intact-not-loaded:{}", shape));
+            if out.stats.get("struct:intact-not-loaded-sample").is_none() {
+                out.stats.insert("struct:intact-not-loaded-sample".into(), json!({"src": src, "de": intact}));
+            }
             continue;
         }
         out.count(&format!("struct:program:{}", shape));
@@ -2628,8 +2631,22 @@ fn stream_struct(out: &mut Out, rng: &mut Rng, n: usize) {
                 continue;
             }
             let r = de_payload(&vm2, t.as_bytes());
+            let redundant = kind == "closure" || kind == "record";
+            // what was loaded, written again: identical to the damaged text = the loader took the short
+            // element list as it stands; different = it made something up
+            // (compared by the element counts of all sequence nodes in walk order: the Marked/Plain wrappers
+            // depend on reference counts and may differ after a reload)
+            let shape_of = |b: &[u8]| -> Option<Vec<(&'static str, usize)>> {
+                let r = jscan(b)?;
+                let mut ns = vec![];
+                seq_nodes(&r, None, &mut ns);
+                Some(ns.iter().map(|(k, a, lead, _)| (*k, a.kids.len().saturating_sub(*lead))).collect())
+            };
+            let as_written = r.starts_with("(ok")
+                && matches!(gv::catch(|| de_value(&vm2, t.as_bytes()).ok().and_then(|v| ser_value(v.get_variant()).ok())),
+                            Ok(Some(b)) if shape_of(&b).is_some() && shape_of(&b) == shape_of(t.as_bytes()));
             let outcome = if r.starts_with("(ok") {
-                "loaded"
+                if as_written { "loaded-as-written" } else { "loaded-changed" }
             } else if r.starts_with("(panic") {
                 "panic"
             } else {
@@ -2637,7 +2654,6 @@ fn stream_struct(out: &mut Out, rng: &mut Rng, n: usize) {
             };
             out.count(&format!("struct:{}:{}:{}", kind, dmg, outcome));
             out.class(format!("struct:{}:{}:{}:{}", shape, kind, dmg, outcome));
-            let redundant = kind == "closure" || kind == "record";
             if outcome == "panic" {
                 out.oracle_fail(
                     &format!("panic:structural:{}:{}", kind, dmg),
@@ -2645,7 +2661,7 @@ fn stream_struct(out: &mut Out, rng: &mut Rng, n: usize) {
                     json!({"kind": "dag", "src": src, "damage": dmg, "node": kind, "text": t}),
                 );
                 vm2 = mk_vm(false, false);
-            } else if outcome == "loaded" && redundant {
+            } else if (outcome == "loaded-changed" && redundant) || (outcome == "loaded-as-written" && kind == "closure") {
                 let what = if r == intact {
                     "a value whose element list was cut short / whose count was changed loads (with made-up slots) instead of failing"
                 } else {
